@@ -59,7 +59,15 @@ def run(pid, tier, args):
             for line in out.splitlines():
                 p = line.split("\t")
                 if p[0] == "JSONDIFF" and maker is None:
-                    v.violation("marshalled %s of rule map %s: %s" % (p[2], p[1], p[3]), {"property": pid, "kind": "jsondoc", "case": byid[p[1]], "detail": line})
+                    if "marshal error" in p[3]:
+                        v.violation("marshalled %s of rule map %s: %s" % (p[2], p[1], p[3]), {"property": pid, "kind": "jsondoc", "case": byid[p[1]], "detail": line})
+                    else:
+                        # the document's shape is not part of the property (only what the rebuilt definition does); a different
+                        # but equivalent serialisation is reported, not alarmed
+                        ndrift = v.notes.get("model_drift_documents", 0) + 1
+                        v.notes["model_drift_documents"] = ndrift
+                        if ndrift == 1:
+                            log("MODEL-DRIFT: marshalled %s of rule map %s differs from the specification's serialised form: %s" % (p[2], p[1], p[3]))
                 elif p[0] == "SYMDIFF" and maker:
                     v.violation("symbol table after %s round trip differs for %s: %s" % (maker, p[1], " ".join(p[2:])), {"property": pid, "kind": "symbols", "maker": maker, "case": byid[p[1]], "detail": line})
                 elif p[0] == "DONE":
